@@ -1,5 +1,5 @@
 (** Shapes of the match arms of [needs_more_input_locked] (brush-interactive/src/completeness.rs)
-    recognised by the translator; the arm list itself is regenerated into gen/IncompleteTables.v. *)
+    recognised by the translator; the arm list itself is regenerated into gen/C15Incomplete.v. *)
 Inductive arm_pat :=
 | PTokIncomplete   (* Err(ParseError::Tokenizing { inner, .. }) if inner.is_incomplete() *)
 | PAtEnd           (* Err(ParseError::ParsingAtEndOfInput) *)
